@@ -1100,6 +1100,8 @@ async def run_session(sc: dict) -> dict:
             await point("explicit", i, out)
         elif op[0] == "tick":
             shown = "the save interval passes"
+            for _ in range(6):      # the saver reaches its sleep (a save that ran in a task of its own reports back first)
+                await asyncio.sleep(0)
             n0 = watch.finished
             loop.ahead += _interval() + 1
             if entered and await quiesce(watch, more_than=n0):
@@ -1380,6 +1382,518 @@ def session_compare(corr: Corr, batch: "Batch", pending: list) -> None:
             corr.disagree("load of the file a running gateway saved vs load (save r)", {**rp, "impl": p["load"][:1500], "model": ls[:1500]})
 
 
+# ---- C13, sessions that end WHILE a scheduled save is in flight ----------------------------------
+#
+# The sessions above only look at the file, and only let traffic through, while no save is in flight.  A running
+# gateway does not wait: messages arrive while the scheduled save (at start, after each save interval) is somewhere
+# between taking its snapshot and closing the file, and the application may leave the context right then.  The file the
+# session leaves behind - once every file operation that was still pending has completed - must still load to the
+# registry the gateway held when it was left.
+#
+# Control: the library's own aiofiles is used, on the ordinary event loop; the loop's `run_in_executor` (through
+# which every file operation of a save reaches a worker thread) can hold ONE operation of a save that runs in the
+# background: either before it starts (an operation queued behind a busy thread pool: if its future is cancelled
+# meanwhile it is never executed, as in concurrent.futures) or after it took effect with its result not yet delivered
+# (a slow operation).  Operations are numbered per save as they are submitted (1 = open, 2 = write, 3 = close in the
+# code as it stands; nothing below depends on those names or on their number).
+
+
+import contextvars  # noqa: E402
+import functools  # noqa: E402
+from concurrent.futures import ThreadPoolExecutor  # noqa: E402
+
+_SAVE_CTX: contextvars.ContextVar = contextvars.ContextVar("c13_save_in_progress", default=None)
+
+
+def _op_name(func) -> str:
+    while isinstance(func, functools.partial):
+        func = func.func
+    name = getattr(func, "__name__", None) or type(func).__name__
+    return {"__exit__": "close"}.get(name, name)
+
+
+class FileGate:
+    """Holds one file operation of one background save; see the comment above."""
+
+    def __init__(self) -> None:
+        self.plan: tuple | None = None      # (k, after): the k-th operation of the next background save
+        self.target: int | None = None      # the save (tagger's numbering) the plan applies to, once it shows up
+        self.ops: dict[int, list[str]] = {}
+        self.held: dict | None = None
+        self.reached = False
+
+    def arm(self, k: int, after: bool) -> None:
+        self.plan, self.target, self.held, self.reached = (k, after), None, None, False
+
+    def submit(self, loop: "GateLoop", executor, func, args, info):
+        n, background = info
+        names = self.ops.setdefault(n, [])
+        names.append(_op_name(func))
+        if self.plan is not None and background and not self.reached:
+            if self.target is None:
+                self.target = n
+            if self.target == n and len(names) == self.plan[0]:
+                return self._hold(loop, executor, func, args, n, len(names), names[-1])
+        return loop.submit_now(executor, func, args)
+
+    def _hold(self, loop, executor, func, args, n, k, name):
+        self.reached = True
+        fut = loop.create_future()
+        h = self.held = {"after": self.plan[1], "fut": fut, "save": n, "k": k, "name": name, "released": False,
+                         "start": None, "real": None, "cf": None, "fate": None}
+        if h["after"]:
+            h["real"] = loop.submit_now(executor, func, args)
+            h["cf"] = loop.file_ops[-1]
+        else:
+            h["start"] = lambda: loop.submit_now(executor, func, args)
+
+        def waiter_gone(f):
+            # the awaiting code was cancelled: a queued operation is then never executed, the result of a running one
+            # is thrown away - and nothing here may keep the file object alive longer than a thread pool would
+            if f.cancelled():
+                if h["start"] is not None:
+                    h["fate"] = "cancelled while queued: never executed"
+                elif h["after"] and not h["released"]:
+                    h["fate"] = "took effect; the awaiting save was cancelled and its result thrown away"
+                h["start"] = None
+                if h["real"] is not None and not h["released"]:
+                    h["real"] = None
+
+        fut.add_done_callback(waiter_gone)
+        return fut
+
+    def effect_pending(self) -> bool:
+        """An `after` hold whose operation is still running in its thread."""
+        h = self.held
+        return bool(h and h["after"] and h["cf"] is not None and not h["cf"].done())
+
+    def release(self) -> str:
+        h = self.held
+        if h is None or h["released"]:
+            return "nothing held"
+        h["released"] = True
+        fut = h["fut"]
+        real = h["real"]
+        if not h["after"]:
+            start, h["start"] = h["start"], None
+            if start is None or fut.done():
+                return h["fate"] or "cancelled while queued: never executed"
+            real = start()
+            h["fate"] = "executed after it was let through"
+        else:
+            if real is None or fut.done():
+                h["real"] = None
+                return h["fate"] or "took effect; result thrown away"
+            h["fate"] = "result delivered after it was let through"
+        h["real"] = None
+
+        def deliver(r):
+            if fut.done():
+                return
+            if r.cancelled():
+                fut.cancel()
+            elif r.exception() is not None:
+                fut.set_exception(r.exception())
+            else:
+                fut.set_result(r.result())
+
+        real.add_done_callback(deliver)
+        fut.add_done_callback(lambda f: real.cancel() if f.cancelled() else None)
+        return h["fate"]
+
+
+class GateLoop(ClockLoop):
+    """ClockLoop whose thread-pool submissions can be held by a FileGate (only those made inside a tagged save)."""
+
+    def __init__(self) -> None:
+        super().__init__()
+        self.gate: FileGate | None = None
+        self.file_ops: list = []
+        self._pool: ThreadPoolExecutor | None = None
+
+    def submit_now(self, executor, func, args):
+        if executor is None:
+            if self._pool is None:
+                self._pool = ThreadPoolExecutor(thread_name_prefix="c13-files")
+                self.set_default_executor(self._pool)
+            executor = self._pool
+        cf = executor.submit(func, *args)
+        self.file_ops = [c for c in self.file_ops if not c.done()]
+        self.file_ops.append(cf)
+        return asyncio.wrap_future(cf, loop=self)
+
+    def run_in_executor(self, executor, func, *args):
+        info = _SAVE_CTX.get()
+        if self.gate is None or info is None:
+            return self.submit_now(executor, func, args)
+        return self.gate.submit(self, executor, func, args, info)
+
+    def ops_in_flight(self) -> int:
+        return sum(1 for c in self.file_ops if not c.done())
+
+
+class SaveTags:
+    """Numbers the saves of one Persistence object and marks, for the file layer, which save an operation belongs to
+    and whether that save runs in the background (in a task other than the one that drives the session)."""
+
+    def __init__(self, p, driver) -> None:
+        self.count = 0
+        self.finished: set = set()
+        inner = p.save
+
+        async def save(*a, **k):
+            self.count += 1
+            n = self.count
+            tok = _SAVE_CTX.set((n, asyncio.current_task() is not driver))
+            try:
+                return await inner(*a, **k)
+            finally:
+                self.finished.add(n)
+                try:
+                    _SAVE_CTX.reset(tok)
+                except ValueError:
+                    pass
+
+        p.save = save
+
+
+async def _wait_held(loop: GateLoop, gate: FileGate, tags: SaveTags, watch: SaveWatch, patience: float = 0.05) -> bool:
+    """Until the planned operation is held (and, for an `after` hold, took effect).  False: the background save never
+    came, or it finished with fewer file operations than the plan asks for."""
+    import time as _t
+
+    t0 = _t.monotonic()
+    spins = 0
+    while True:
+        await asyncio.sleep(0)
+        spins += 1
+        if gate.reached:
+            if not gate.effect_pending():
+                return True
+        elif gate.target is not None and gate.target in tags.finished:
+            return False
+        elif gate.target is None and spins >= 12 and watch.idle() and _t.monotonic() - t0 > patience:
+            return False
+        if _t.monotonic() - t0 > SESSION_GUARD:
+            raise RuntimeError("the held file operation of a scheduled save did not take effect")
+        if spins >= 12:
+            await asyncio.sleep(0.001)
+
+
+async def _settle(loop: GateLoop, watch: SaveWatch) -> bool:
+    """Until every save of the session has finished and no file operation is pending or running."""
+    import time as _t
+
+    t0 = _t.monotonic()
+    calm = 0
+    while calm < 3:
+        await asyncio.sleep(0)
+        calm = calm + 1 if (watch.idle() and not loop.ops_in_flight()) else 0
+        if _t.monotonic() - t0 > SESSION_GUARD:
+            return False
+        if not calm:
+            await asyncio.sleep(0.001)
+    return True
+
+
+async def run_overlap(sc: dict) -> dict:
+    """One session that is left while a scheduled save is held at one of its file operations.  sc: version, metric,
+    preload, when ('start' | 'tick'), before (traffic before the interval passes), hold [k, after], during (traffic
+    while the save is held).  Returns the trace and the final record (file after everything settled vs registry)."""
+    from aiomysensors.gateway import Config, Gateway
+
+    loop = asyncio.get_running_loop()
+    gate = loop.gate = FileGate()
+    path = fresh_path()
+    tr = gw.FaultTransport()
+    if sc["preload"]:          # the file an earlier run left behind
+        pre, _ = gw.build_gateway(gw.Hist(None, True, [tuple(p) for p in sc["preload"]], []))
+        await impl_save(path, pre.nodes)
+    g = Gateway(tr, Config(metric=sc["metric"], persistence_file=path))
+    if sc["version"] is not None:
+        g.protocol_version = sc["version"]
+    watch = SaveWatch(g.persistence)
+    tags = SaveTags(g.persistence, asyncio.current_task())
+    trace: list[str] = []
+    k, after = sc["hold"]
+    res = {"trace": trace, "judged": False, "reached": False, "why": None, "running_at_return": 0, "point": None,
+           "changed": False, "ops_of_held_save": None}
+
+    async def receive(line: str) -> None:
+        tr.lines, tr.faults, tr.attempts = [line], [], []
+        gw.TIME_STUB.now = tuple(T1)
+        before = render_nodes(g.nodes)
+        listener = g.listen()
+        try:
+            out = gw.render_msg(await anext(listener))
+        except BaseException as e:  # noqa: BLE001
+            out = gw.render_exc(e)
+        await listener.aclose()
+        trace.append(f"{len(trace)}: receive {line[:70]!r}{'...' if len(line) > 70 else ''} -> {out[:60]}"
+                     + ("  [registry changed]" if render_nodes(g.nodes) != before else ""))
+
+    def cleanup() -> None:
+        loop.gate = None
+        if os.path.exists(path):
+            os.unlink(path)
+
+    if sc["when"] == "start":
+        gate.arm(k, after)
+    try:
+        async with asyncio.timeout(SESSION_GUARD):
+            await g.__aenter__()
+        out = "ok"
+    except BaseException as e:  # noqa: BLE001
+        out = outcome_of(e)
+    trace.append(f"0: enter the gateway context ({'the file of an earlier run holds ' + str(len(g.nodes)) + ' node(s)' if sc['preload'] else 'no file yet'}) -> {out}")
+    if out != "ok":
+        gate.release()
+        await _settle(loop, watch)
+        cleanup()
+        res["why"] = f"entering the gateway context failed: {out}"
+        res["judged"] = True
+        return res
+    if sc["when"] == "tick":
+        await quiesce(watch, more_than=watch.finished)
+        for line in sc["before"]:
+            await receive(line)
+        for _ in range(6):      # the saver reaches its sleep (a save that ran in a task of its own reports back first)
+            await asyncio.sleep(0)
+        gate.arm(k, after)
+        loop.ahead += _interval() + 1
+        trace.append(f"{len(trace)}: the save interval passes")
+    held = await _wait_held(loop, gate, tags, watch)
+    res["reached"] = held
+    if not held:
+        trace.append(f"{len(trace)}: no scheduled save reached its file operation {k} (operations of that save: "
+                     f"{gate.ops.get(gate.target, [])})")
+    else:
+        h = gate.held
+        trace.append(f"{len(trace)}: the scheduled save (save {h['save']} of this session's Persistence object) is in flight: its file "
+                     f"operation {k} ({h['name']}) " + ("took effect, its result is not delivered yet" if after else "is queued, not started yet"))
+    snapshot = render_nodes(g.nodes)
+    for line in sc["during"]:
+        await receive(line)
+    res["changed"] = render_nodes(g.nodes) != snapshot
+
+    # leave the context; if leaving waits for the held operation, that operation completes (it is slow, not dead)
+    async def unblock():
+        import time as _t
+
+        t0, quiet = _t.monotonic(), 0
+        while True:
+            await asyncio.sleep(0)
+            quiet = quiet + 1 if not loop.ops_in_flight() else 0
+            if quiet >= 30 and _t.monotonic() - t0 > 0.05:
+                res["released_while_leaving"] = gate.release()
+                return
+            if quiet >= 30:
+                await asyncio.sleep(0.001)
+
+    dog = asyncio.ensure_future(unblock())
+    try:
+        async with asyncio.timeout(SESSION_GUARD):
+            await g.__aexit__(None, None, None)
+        out = "ok"
+    except BaseException as e:  # noqa: BLE001
+        out = "did not return" if isinstance(e, TimeoutError) else outcome_of(e)
+    dog.cancel()
+    running = watch.started - watch.finished
+    res["running_at_return"] = running
+    held_nodes = g.nodes
+    at_exit = render_nodes(held_nodes)
+    trace.append(f"{len(trace)}: leave the gateway context -> {out}"
+                 + (f"  [the held operation was let through because leaving waited for it: {res['released_while_leaving']}]"
+                    if "released_while_leaving" in res else "")
+                 + f"  [saves still running when it returned: {running}]")
+    fate = gate.release()
+    settled = await _settle(loop, watch)
+    if held:
+        trace.append(f"{len(trace)}: the held file operation is let through ({fate}); "
+                     + ("every pending file operation completed, no save is running" if settled else "a save or file operation never finished"))
+    res["ops_of_held_save"] = list(gate.ops.get(gate.target, [])) if gate.target is not None else None
+    res["judged"] = True
+    rec = {"kind": "exit while a scheduled save was in flight", "step": len(trace) - 1, "registry": at_exit,
+           "domain": in_domain(held_nodes), "describe": describe(held_nodes)}
+    if out != "ok":
+        res["why"] = f"leaving the gateway context failed: {out}"
+    elif not settled:
+        res["why"] = "a save of the session never finished although every file operation was let through"
+    elif not os.path.exists(path):
+        res["why"] = "the session was left but there is no file"
+    else:
+        with open(path, "rb") as f:
+            rec["bytes"] = f.read()
+        if rec["bytes"] not in _LOADED:
+            cp = fresh_path()
+            with open(cp, "wb") as f:
+                f.write(rec["bytes"])
+            _LOADED[rec["bytes"]] = await impl_load(cp)
+            os.unlink(cp)
+        rec["load"], loaded = _LOADED[rec["bytes"]]
+        rec["surrogate"] = reg_has_surrogate(held_nodes)
+        rec["ops"] = reg_ops(held_nodes)
+        trace.append(f"{len(trace)}: load a copy of the file ({len(rec['bytes'])} bytes) into an empty registry -> {rec['load'][:60]}")
+        if not rec["load"].startswith("ok "):
+            res["why"] = ("the file left behind by a session that ended while a scheduled save was in flight is not accepted by load: "
+                          + rec["load"])
+        else:
+            diff = same_registry(held_nodes, loaded)
+            if diff:
+                res["why"] = ("the file left behind by a session that ended while a scheduled save was in flight does not load to the "
+                              "registry the gateway held when it was left: " + diff + " (registry held vs loaded from the file)")
+    if res["why"] is None and running:
+        res["why"] = (f"{running} save(s) of the session were still running when leaving the gateway context returned: the file was "
+                      "not final when the session was over")
+    res["point"] = rec
+    cleanup()
+    return res
+
+
+LONG_PAYLOAD = "a long payload, " * 25
+OVERLAP_DIRECTIONS = ("shorter", "longer", "same length")
+
+
+def overlap_base(version: str, value: str) -> list:
+    """The registry of an earlier run (preload tuples): gateway, a node with sketch, battery, a child and a value."""
+    return [["node", 0, 18, version + ".0", "", "", 0, 0, False, False],
+            ["node", 1, 17, version, "Grön sensor", "1.0", 80, 0, False, False],
+            ["child", 1, 1, 1, 6, "outdoor temp"], ["val", 1, 1, 0, value],
+            ["node", 2, 17, version, "", "", 0, 0, False, False], ["child", 2, 0, 0, 3, "relay"]]
+
+
+def overlap_change(version: str, direction: str) -> tuple[str, list[str]]:
+    """(value stored before, traffic) so that the serialised registry becomes shorter / longer / keeps its length."""
+    if direction == "shorter":
+        return LONG_PAYLOAD, ["1;255;3;0;0;79", "1;1;1;0;0;7"]
+    if direction == "longer":
+        return "20.5", [f"7;255;0;0;17;{version}", "7;3;0;0;7;humidité", "7;3;1;0;1;55.5", "1;1;1;0;0;" + LONG_PAYLOAD]
+    return "20.5", ["1;1;1;0;0;21.5", "1;255;3;0;0;81"]
+
+
+def overlap_sessions(seed: int, tier: str, n_ops: int, rng) -> list[dict]:
+    """Every file operation of a scheduled save (before it starts / after it took effect) x the scheduled save at start
+    and after an interval x the registry getting shorter, longer, changing at equal length since that save's snapshot;
+    plus the first session ever (no file yet) and random traffic while the save is held."""
+    out = []
+    positions = [(k, after) for k in range(1, n_ops + 1) for after in (False, True)]
+    # The LAST operation of a save held in the queue is run but not judged (LAST_QUEUED): a queued operation whose waiter
+    # is cancelled is never executed, so the file object of the cancelled save stays open with its text still buffered,
+    # and CPython writes that text out whenever the object is collected - in the code as it stands that is right after
+    # the final save has submitted its truncating open (the cancelled save's frames live until then), a race between
+    # two threads whose outcome differs from run to run.  The state 'before close' itself is covered by the hold
+    # 'the operation before it took effect, result not delivered'.
+    judged = [(k, after) for k, after in positions if after or k < n_ops or n_ops == 1]
+    i = seed
+    for k, after in positions:
+        observe_only = (k, after) not in judged
+        for when in ("start", "tick"):
+            for direction in OVERLAP_DIRECTIONS:
+                versions = lib.VERSIONS if tier == "thorough" else [lib.VERSIONS[i % 5]]
+                i += 1
+                for v in versions:
+                    value, during = overlap_change(v, direction)
+                    pos = f"operation {k} {'took effect' if after else 'queued'}"
+                    out.append({"label": f"overlap: scheduled save at {when}; {pos}; registry gets {direction}; protocol {v}",
+                                "version": v, "metric": True, "preload": overlap_base(v, value), "when": when, "hold": [k, after],
+                                "before": ["2;0;1;0;2;1"] if when == "tick" else [], "during": during, "direction": direction,
+                                "observe_only": observe_only})
+        # the first session ever: no file, the snapshot of the save at start is the empty registry
+        v = lib.VERSIONS[i % 5]
+        i += 1
+        out.append({"label": f"overlap: scheduled save at start; operation {k} {'took effect' if after else 'queued'}; no file yet, "
+                             f"nodes present themselves; protocol {v}",
+                    "version": v, "metric": True, "preload": [], "when": "start", "hold": [k, after], "before": [],
+                    "during": [f"0;255;0;0;18;{v}.0", f"1;255;0;0;17;{v}", "1;1;0;0;6;outdoor temp", "1;1;1;0;0;20.5"], "direction": "longer",
+                    "observe_only": observe_only})
+    # random traffic (no write faults) while the save is held, from a random earlier registry
+    for j in range(12 if tier == "quick" else 150):
+        v = lib.VERSIONS[(j + seed) % 5]
+        h = gw.gen_history(rng, v, rng.randint(3, 12), send_ratio=0.0, fault_ratio=0.0, preload_p=0.8)
+        lines = [op[1] for op in h.ops if op[0] == "recv" and not lib.has_surrogate(op[1])]
+        k, after = rng.choice(judged)
+        when = rng.choice(["start", "tick"])
+        cut = rng.randint(0, len(lines)) if when == "tick" else 0
+        out.append({"label": f"overlap: random traffic; scheduled save at {when}; operation {k} {'took effect' if after else 'queued'}; protocol {v}",
+                    "version": h.version, "metric": h.metric, "preload": [list(p) for p in h.preload], "when": when, "hold": [k, after],
+                    "before": lines[:cut], "during": lines[cut:], "direction": "random", "observe_only": False})
+    return out
+
+
+async def probe_save_ops() -> int:
+    """How many file operations one scheduled save submits (3 in the code as it stands: open, write, close)."""
+    loop = asyncio.get_running_loop()
+    gate = loop.gate = FileGate()
+    path = fresh_path()
+    g = Gateway(gw.FaultTransport(), Config(persistence_file=path))
+    watch = SaveWatch(g.persistence)
+    SaveTags(g.persistence, asyncio.current_task())
+    try:
+        await g.__aenter__()
+        await quiesce(watch, more_than=watch.finished)
+        await g.__aexit__(None, None, None)
+        await quiesce(watch)
+    finally:
+        loop.gate = None
+        if os.path.exists(path):
+            os.unlink(path)
+    counts = [len(v) for v in gate.ops.values()]
+    return max(counts) if counts else 0
+
+
+def overlap_checks(ctx, corr: Corr, batch: "Batch") -> list:
+    """Runs the sessions that end while a scheduled save is in flight; oracle; queues the model's questions about the
+    file each of them left behind (same shape as session_checks' list)."""
+    rng = lib.rng_for(ctx.seed, "c13-overlap")
+    pending = []
+
+    async def main():
+        n_ops = await probe_save_ops()
+        results = []
+        for sc in overlap_sessions(ctx.seed, ctx.tier, max(1, min(n_ops, 8)), rng):
+            results.append((sc, await run_overlap(sc)))
+        return n_ops, results
+
+    n_ops, results = asyncio.run(main(), loop_factory=GateLoop)
+    corr.count(f"overlap: file operations per scheduled save = {n_ops}")
+    for sc, res in results:
+        k, after = sc["hold"]
+        if sc["observe_only"]:
+            corr.count("overlap, not judged: the save's last file operation queued when the session was left (the cancelled save "
+                       "never closes its file; CPython flushes it when the object is collected) - file "
+                       + ("loads to the registry held" if not res["why"] else "does NOT load to the registry held"))
+            continue
+        corr.count("overlap scenarios (session left while a scheduled save is in flight)")
+        if not res["reached"]:
+            corr.count("overlap: scheduled save not caught at the planned operation (judged all the same)")
+        else:
+            name = (res["ops_of_held_save"] or ["?"] * k)[k - 1]
+            corr.count(f"overlap held at operation {k} ({name}) {'after it took effect' if after else 'before it started'}")
+            corr.count(f"overlap: scheduled save at {sc['when']}")
+            corr.count(f"overlap: registry since the snapshot: {sc['direction']}" + ("" if res["changed"] else " (unchanged)"))
+        full = {"label": sc["label"], "version": sc["version"], "metric": sc["metric"], "preload": sc["preload"], "style": 0,
+                "ops": [["enter", sc["when"]], ["hold", k, after]] + [["recv", ln] for ln in sc["before"]] + [["in-flight"]]
+                       + [["recv", ln] for ln in sc["during"]] + [["exit"]]}
+        p = res["point"]
+        if res["why"]:
+            corr.violate(res["why"], {"scenario": sc["label"], "steps": res["trace"],
+                                      "session": {kk: sc[kk] for kk in ("version", "metric", "preload", "when", "hold", "before", "during")},
+                                      "registry_held": p.get("describe") if p else None,
+                                      "file": (p.get("bytes", b"") if p else b"")[:3000].decode("utf-8", "replace"),
+                                      "file_operations_of_the_held_save": res["ops_of_held_save"]})
+        elif p is not None and not p["domain"]:
+            corr.violate("a registry reached from received messages is outside the domain of the round-trip theorem "
+                         "(node id / battery level / printable integers)", {"scenario": sc["label"], "steps": res["trace"],
+                                                                            "registry": p["registry"][:1500]})
+        corr.case(("overlap", sc["label"], json.dumps(sc["during"])), bool(res["reached"] and res["changed"]),
+                  {"label": sc["label"], "steps": res["trace"][-5:]})
+        if ctx.model_ok and p is not None and "bytes" in p and not p["surrogate"]:
+            for op in p["ops"]:
+                batch.ask(op)
+            pending.append((p, full, res, {"savetext": batch.ask("savetext"), "loadsave": batch.ask("loadsave")}))
+    return pending
+
+
 def run_c13(ctx) -> Corr:
     corr = Corr("C13", "registries reached by running wire histories on the real Gateway (boundary histories named by the "
                 "property, then random histories over 5 versions) and directly constructed registries (boundary content: "
@@ -1404,9 +1918,16 @@ def run_c13(ctx) -> Corr:
                 "unknown, asleep with buffered commands) x every way the step can end (handled, rejected after the change, "
                 "1st/2nd write failing or cancelled), and random histories with faults; oracle after EVERY completed save: "
                 "a copy of the file loads into an empty registry to exactly the registry the gateway holds; model compared "
-                "per save point on the file's bytes (saveText) and load (save r). non-trivial = registry has a child, a "
+                "per save point on the file's bytes (saveText) and load (save r); sessions that are LEFT WHILE a scheduled save "
+                "(at start / after a save interval) is in flight: one file operation of that save (every one it submits to the "
+                "thread pool, as counted on this run) is held before it starts or after it took effect, the registry changes "
+                "meanwhile (serialised text shorter / longer / same length; the first session without a file; random traffic), "
+                "the context is left, the held operation is let through; oracle: once every pending file operation has "
+                "completed a copy of the file loads to exactly the registry held at exit, and no save is still running when "
+                "leaving returned. non-trivial = registry has a child, a "
                 "value, a non-default attribute, or lies outside the domain; a session is non-trivial when its Persistence "
-                "object saved two different non-empty registries")
+                "object saved two different non-empty registries; a session left during a save is non-trivial when the save was held "
+                "where planned and the registry changed while it was held")
     corr._model_ok = ctx.model_ok
     rng = lib.rng_for(ctx.seed, "c13")
     cases = []
@@ -1508,6 +2029,17 @@ def run_c13(ctx) -> Corr:
                       "between) are judged by the oracle at every completed save; a session, its saver task and its file are not "
                       "operations of the Lean model, which has no state between two saves: the model is compared per save point on "
                       "the file's bytes (saveText of the registry held) and on load (save r)")
+    # sessions left while a scheduled save is in flight (held at each of its file operations)
+    t_overlap = _t.time()
+    pending_overlap = overlap_checks(ctx, corr, batch)
+    pending += pending_overlap
+    corr.notes.append(f"sessions left while a scheduled save is in flight: {_t.time() - t_overlap:.1f} s on the implementation, "
+                      f"{len(pending_overlap)} files queued for the model")
+    corr.notes.append("sessions left while a scheduled save is in flight (one file operation of that save held before it starts / "
+                      "after it took effect, the registry changed meanwhile) are judged by the oracle alone as far as the schedule "
+                      "is concerned: tasks, the thread pool and an open file are not operations of the persistence model's driver. "
+                      "The file such a session leaves behind is compared with the model like every other save point (its bytes = "
+                      "saveText of the registry held at exit; load (save r))")
     if not ctx.model_ok:
         return corr
     check_boolean_tables(corr)
